@@ -490,6 +490,11 @@ def check_updates_reach(ctx, rep):
             c11.check_setters(ctx, RuleProxy(rep, 'C05.H', 'setters::'), cls)       # an assignment to shape / invariant / mu always tells the listeners
     # the samplers that move shape / invariant / mu: proposals and restorations tell the listeners (C11.W rules on the MCMC operators)
     c11.check_inplace(ctx, RuleProxy(rep, 'C05.H', 'operators::'), rule='C11.W', only=lambda m, fn: m.name.startswith('torchtree.inference.mcmc'))
+    # replacing shape / invariant / mu after construction goes through Parametric.__setattr__: a property setter written for it would never run
+    c11.check_parameter_setters_are_reachable(ctx, RuleProxy(rep, 'C05.H', 'setters::'), only=lambda c: c.module.name == MOD or c.module.name == 'torchtree.core.parameter')
+    # the rates / probabilities that are served were computed from the current shape / invariant / mu: the dirty flag of a site model goes down only after an unconditional refresh
+    if c11.check_flag_cleared_after_the_refresh(ctx, RuleProxy(rep, 'C05.H', 'flags::'), only=lambda m: m.name == MOD) < 4:
+        rep.incomplete('C05.H', 'flags', '', 'fewer than 4 flag-guarded refresh blocks found in site_model.py')
     if n < 6:
         rep.incomplete('C05.H', '*', '', f"only {n} site model / derived parameter classes found")
 
